@@ -293,7 +293,6 @@ Section HelpParse.
   Hypothesis Hargs : get_arguments_all f = [(a_name a, a)].
   Hypothesis Hcns : get_command_names_all f = [help_cname].
   Hypothesis Hmulti : a_multi a = true.
-  Hypothesis Hreq : a_required a = false.
   Hypothesis Htype : a_type a = TStr.
 
   Lemma aug_shape : exists F ars n, aug_format f = Ok (F, ars, [(n, help_cname)]).
@@ -429,3 +428,93 @@ Proof.
     destruct (build_cmds g _ r) as [bs|k] eqn:E2; cbn [bind] in H; [|discriminate].
     inversion H; subst. destruct (IH _ _ E2 Hin) as [f [F1 F2]]. exists f. split; [exact F1|now right].
 Qed.
+
+(* ================= what the run does ================= *)
+(* the page of the help target, or the failure to find it *)
+Definition help_page (a : application) (toks : list str) : action :=
+  match help_target a toks with Ok p => AHelpCmd p | Err k => AHelpFail k end.
+
+Section Run.
+  Variables (a : application) (dflt len : bool) (f : fmt) (arg : arg) (o : opt).
+  Let hc : bcmd := BCmd S_help [] dflt false len f [].
+  Hypothesis Hnamed : coll_contains (named_of (ap_cmds a)) S_help = true /\ coll_get (named_of (ap_cmds a)) S_help = Ok hc.
+  Hypothesis Hall : coll_get (coll_of (ap_cmds a)) S_help = Ok hc.
+  Hypothesis Hinv : fmt_inv f.
+  Hypothesis Hsound : short_sound f.
+  Hypothesis Hargs : get_arguments_all f = [(a_name arg, arg)].
+  Hypothesis Hcns : get_command_names_all f = [help_cname].
+  Hypothesis Harg : is_command_arg arg = true.
+  Hypothesis Hcar : carries o f.
+  Hypothesis Hopt : is_help_option o = true.
+
+  Variable path : list str.
+  Hypothesis Hplain : forallb lead_ok path = true.
+  Hypothesis Hne : path <> [].
+
+  Lemma arg_facts : a_name arg = COMMAND /\ a_multi arg = true /\ a_required arg = false /\ a_type arg = TStr.
+  Proof. destruct (command_arg_spec arg Harg) as (H1 & H2 & H3 & _ & H5). auto. Qed.
+
+  Lemma command_is_set opts : args_is_argument_set f {| ar_opts := opts; ar_args := help_args f path |} (AName COMMAND) = true.
+  Proof.
+    destruct arg_facts as (N & M & R & T). unfold args_is_argument_set, has_argument, get_argument. cbn [get_arguments].
+    rewrite Hargs, N. unfold shas at 1, ahas, sget. cbn [aget]. rewrite str_eqb_refl. cbn [ar_args].
+    now apply help_args_set.
+  Qed.
+
+  (* "help <path>": the resolver reaches the command "help"; its handler shows the page of the help target *)
+  Lemma run_help_word debug : sm_action (run_summary debug a (S_help :: path)) = help_page a (S_help :: path).
+  Proof.
+    destruct arg_facts as (N & M & R & T). destruct Hnamed as [Hc Hg].
+    assert (forallb lead_ok (S_help :: path) = true) as Hl by (cbn [forallb]; now rewrite Hplain).
+    unfold run_summary. cbn [sm_action].
+    assert (option_tokens (S_help :: path) = S_help :: path) as ->.
+    { rewrite <- (app_nil_r (S_help :: path)) at 1. rewrite (option_tokens_plain _ [] Hl). cbn. now rewrite app_nil_r. }
+    rewrite (wants_help_plain _ Hl).
+    assert (resolve a (S_help :: path) = Ok ([S_help], f, {| ar_opts := []; ar_args := help_args f path |})) as ->.
+    { unfold resolve. rewrite (leading_all _ Hl). cbn [walk]. rewrite Hc, Hg. cbn [negb bind b_subs hc b_name app].
+      assert (walk (named_of []) (Some (hc, [S_help])) path = Ok (Some (hc, [S_help]))) as ->.
+      { destruct path as [|t r]; reflexivity. }
+      cbn [bind b_subs hc]. change (defaults_of []) with (@nil bcmd). cbn [pick_default bind b_fmt b_lenient].
+      change (b_fmt hc) with f. change (b_lenient hc) with len.
+      now rewrite (parse_help_line f arg Hinv Hargs Hcns M T path Hplain Hne len). }
+    change (args_is_option_set f {| ar_opts := []; ar_args := help_args f path |} S_version) with false. cbv iota.
+    rewrite str_eqb_refl. change (AName [99;111;109;109;97;110;100]%N) with (AName COMMAND). now rewrite command_is_set.
+  Qed.
+
+  (* the version switch is not set by "--help" / "-h" *)
+  Lemma version_not_set ars : args_is_option_set f {| ar_opts := [(S_help, VBool true)]; ar_args := ars |} S_version = false.
+  Proof.
+    unfold args_is_option_set. cbn [ar_opts has_option get_option].
+    assert (forall n, n <> S_help -> shas n [(S_help, VBool true)] = false) as Hn.
+    { intros n Hne'. unfold shas, ahas. cbn [aget]. destruct (str_eqb_spec n S_help); [contradiction|reflexivity]. }
+    destruct (has_option_all f S_version); [|apply Hn; discriminate].
+    destruct (get_option_all f S_version) as [o'|k] eqn:E; [|apply Hn; discriminate].
+    apply Hn. intros El. destruct Hinv as (_ & _ & Hoi).
+    destruct (get_option_named f Hoi Hsound _ _ E) as (I1 & _ & I3). rewrite El in I3.
+    destruct (is_help_option_spec o Hopt) as (_ & [Hlong _] & _). destruct Hcar as (_ & C2 & _). rewrite Hlong in C2.
+    assert (o' = o) as -> by congruence. pose proof Hopt as Hopt'. unfold is_help_option in Hopt'.
+    apply in_onames in I1 as [I1|I1]; [rewrite Hlong in I1; discriminate|].
+    rewrite I1 in Hopt'. destruct (str_eqb (o_long o) S_help); discriminate.
+  Qed.
+
+  (* "<path> --help" / "<path> -h": the listener parses the line leniently with the help command's format, "command" is the
+     whole path, and the help command's handler shows the page of the help target *)
+  Lemma run_help_switch debug sw :
+    (match path with t :: _ => str_eqb t S_help = false | [] => True end) ->
+    sw = T_help \/ sw = T_h ->
+    sm_action (run_summary debug a (path ++ [sw])) = help_page a (path ++ [sw]).
+  Proof.
+    intros Hh Hsw. destruct arg_facts as (N & M & R & T).
+    destruct (is_help_option_spec o Hopt) as (Hnv & H1 & H2).
+    assert (help_switch_of o sw) as Hso by (destruct Hsw as [->| ->]; assumption).
+    unfold run_summary. cbn [sm_action]. rewrite (option_tokens_plain _ [sw] Hplain).
+    assert (option_tokens [sw] = [sw]) as -> by (destruct Hsw as [->| ->]; reflexivity).
+    assert (wants_help (path ++ [sw]) = true) as ->.
+    { unfold wants_help. rewrite !has_token_app. destruct Hsw as [->| ->]; cbn; now rewrite ?orb_true_r. }
+    unfold find_cmd. rewrite Hall. change (b_fmt hc) with f.
+    rewrite (parse_switch_value f o sw true path _ Hcar Hnv Hso Hplain
+               (parse_path_line f arg Hinv Hargs Hcns M T path Hplain Hne true Hh) eq_refl).
+    cbn [ar_args]. rewrite version_not_set. change (AName [99;111;109;109;97;110;100]%N) with (AName COMMAND).
+    now rewrite command_is_set.
+  Qed.
+End Run.
